@@ -8,7 +8,7 @@ ALLOWED_AXIOMS = {"Classical_Prop.classic", "ClassicalDedekindReals.sig_not_dec"
                   "ClassicalDedekindReals.sig_forall_dec",
                   "FunctionalExtensionality.functional_extensionality_dep"}
 MANIFEST = {
-    "text": 'Coq theorems over the broker model: one update request gives a subscriber at most one message, non-empty, with exactly the changed-and-subscribed fields and the committed values; nothing watched (rejected, foreign, repeated on-change) means no message; a lagging reader gets the oldest retained message, never older than its position, among the newest cap >= buffer_size+1; a subscription is unregistered only when its receiver is gone or its token expired (or at shutdown). Tied to the code by histories with subscribe (every buffer-size class), eager/lazy/never readers, stream drops, housekeeping (hook H3) and shutdown, comparing whole message sequences.',
+    "text": 'Coq theorems over the broker model: one update request gives a subscriber at most one message, non-empty, with exactly the changed-and-subscribed fields and the committed values; nothing watched (rejected, foreign, repeated on-change) means no message; a lagging reader gets the oldest retained message, never older than its position, among the newest cap >= buffer_size+1; a subscription is unregistered only when its receiver is gone or its token expired (or at shutdown). Tied to the code by histories with subscribe (every buffer-size class), eager/lazy/never readers, stream drops, housekeeping (hook H3) and shutdown, comparing whole message sequences. Second part: the same through the gRPC handlers - kuksa.val.v1 Subscribe (leaf / branch path, field set) and kuksa.val.v2 Subscribe / SubscribeById (every buffer_size class) called as trait methods, their proto streams read back into the core message form, modelled by Api.v1_subscribe / Api.v2_subscribe (theorems c07_v2_subscribe_is_core, c07_refused_handler_subscription_no_effect) and judged by the same clauses.',
     "note": "Trusted: Coq kernel; the 4 standard-library axioms that enter through Flocq (used by validate's float comparisons) as printed by Print Assumptions; extraction + OCaml driver (vm_compute cross-check each run); harness/src/fam_hist.rs and hook H3 (verif_housekeeping_step); the Python monitors. Modelled, not verified: tokio broadcast (ring with capacity rounded up to a power of two, Lagged skipping) and RwLock, HashMap iteration order (outputs are sorted), the gRPC handlers on top of AuthorizedAccess (exercised by the handler-level checks), SystemTime (a timestamp is canonicalised to the operation during which it was taken; expiry is crossed in real time at a TICK).",
 }
 PROPS = set("C07,C03".split(","))
@@ -33,3 +33,57 @@ nontrivial = B.nontrivial
 histogram = B.histogram
 pretty = B.pretty
 neighbours = B.neighbours
+
+
+class Core:
+    """subscriptions through the in-process API"""
+    FAM = 1
+    generate = staticmethod(generate)
+    monitor = staticmethod(monitor)
+    nontrivial = staticmethod(nontrivial)
+    histogram = staticmethod(histogram)
+    pretty = staticmethod(pretty)
+    neighbours = staticmethod(neighbours)
+
+
+class HandlerSubs:
+    """subscriptions through the gRPC handlers (kuksa.val.v1 Subscribe by leaf / branch path and field set,
+    kuksa.val.v2 Subscribe by paths and SubscribeById with every buffer_size class), among writes through every
+    API; the proto stream is read back into the core's message form and the same clauses judge it"""
+    FAM = 1
+
+    @staticmethod
+    def generate(rng, tier):
+        n = 150 if tier == "quick" else 4000
+        return [("hs%d" % i, H.gen_history(rng, H.W_APISUB, plain_meta=0.6)) for i in range(n)]
+
+    @staticmethod
+    def compare(lines, m, i):
+        # over kuksa.val.v1 a datapoint without a value is absent (and its timestamp with it)
+        return H.canon_messages(m) == H.canon_messages(i)
+
+    monitor = staticmethod(monitor)
+    pretty = staticmethod(pretty)
+    neighbours = staticmethod(neighbours)
+
+    @staticmethod
+    def nontrivial(lines, out):
+        al = H.split_outputs(lines, out)
+        if al is None:
+            return None
+        ok = any(d["op"] in (H.V1SUB, H.V2SUB) and o and o[0][:1] == [0] for d, o in al)
+        got = any(d["name"] == "RECV" and len(o) > 1 for d, o in al)
+        return hash(tuple(map(tuple, lines))) if ok and got else None
+
+    @staticmethod
+    def histogram(lines, out):
+        al = H.split_outputs(lines, out)
+        h = ["op:" + (H.OPN[l[0]] if 0 <= l[0] < len(H.OPN) else "?") for l in lines]
+        if al:
+            for d, o in al:
+                if d["op"] in (H.V1SUB, H.V2SUB) and o:
+                    h.append("%s -> %s" % (d["name"], "ok" if o[0][:1] == [0] else "status %s" % o[0][1:2]))
+        return h
+
+
+PARTS = [Core, HandlerSubs]
